@@ -111,6 +111,12 @@ def evalNumLit : NumLit → Value
   | .pow a b => .num (.int ((digitsVal a : Int) ^ (digitsVal b)))
   | .pct a => .num (.flt ((digitsVal a : Rat) / 100))
 
+/-- the guard of the `NUMBER CARET NUMBER` production: `base > 1 and (base.bit_length() - 1) *
+    exponent >= 1024` — a literal power of at least 2^1024 raises `#NUM!` instead of being computed -/
+def numLitTooBig : NumLit → Bool
+  | .pow a b => decide (digitsVal a > 1) && decide (Nat.log2 (digitsVal a) * digitsVal b ≥ 1024)
+  | _ => false
+
 /-- `call_cell_value` -/
 def callCell (env : Env) (label : List Char) (log : Log) : Except Exn Value × Log :=
   let lab := Cell.upper label
@@ -192,7 +198,7 @@ def seqValues (kind : SeqKind) (a b : List Value) : List Value :=
 
 mutual
 def evalExpr (env : Env) : Expr → Log → Except Exn Value × Log
-  | .num l, log => (.ok (evalNumLit l), log)
+  | .num l, log => if numLitTooBig l then (.error (.xl .num), log) else (.ok (evalNumLit l), log)
   | .str s, log => (.ok (.str s), log)
   | .errLit t, log => (.error (throwErrorLit t), log)
   | .blankSlot, log => (.ok .blank, log)
